@@ -4,5 +4,5 @@ P="$1"; shift
 for d in /tmp/mut_${P}_out/m*.diff; do
   k=$(basename $d .diff)
   echo "#### $P $k: $(python3 -c "import json,sys; print(json.load(open('/tmp/mut_${P}_out/$k.json'))['summary'][:200])" 2>/dev/null)"
-  /verif/tools/trymut.sh $d /tmp/mut_${P}_out/${k}_demo.py $P "$@"
+  /verif/tools/trymut2.sh $d /tmp/mut_${P}_out/${k}_demo.py $P "$@"
 done
